@@ -167,9 +167,19 @@ func RuleH1(c *Ctx) {
 			body := innermostBody(fd, as)
 			cf := c.CFG(pk, body.body)
 			var valueVar types.Object
+			sameMap := func(a, b ast.Expr) bool {
+				if cfgx.SameExpr(info, a, b) {
+					return true
+				}
+				// the same field reached through differently named receivers (a fact handed
+				// over by a helper's summary, or a caller's view of the callee's map)
+				sa, ok1 := ast.Unparen(a).(*ast.SelectorExpr)
+				sb, ok2 := ast.Unparen(b).(*ast.SelectorExpr)
+				return ok1 && ok2 && info.ObjectOf(sa.Sel) != nil && info.ObjectOf(sa.Sel) == info.ObjectOf(sb.Sel)
+			}
 			gen := func(fa cfgx.Fact) bool {
-				if id, ok := ast.Unparen(fa.Expr).(*ast.Ident); ok && !fa.Truth {
-					if m, k, found := mapLookupOf(info, cf, id); found && cfgx.SameExpr(info, m, ix.X) && cfgx.SameExpr(info, k, ix.Index) {
+				if !fa.Truth {
+					if m, k, found := mapLookupOf(info, cf, fa.Expr); found && sameMap(m, ix.X) && (cfgx.SameExpr(info, k, ix.Index) || cf.SameResolved(k, ix.Index)) {
 						return true
 					}
 				}
@@ -189,6 +199,8 @@ func RuleH1(c *Ctx) {
 			_ = valueVar
 			if cf.MustAt(as, gen, nil, nil) {
 				sc.Holds(key, c.P.Pos(as.Pos()), kind+": preceded by a lookup (not found) of the same key")
+			} else if why, ok := c.h1CallersLookedUp(pk, fd, ix); ok {
+				sc.Holds(key, c.P.Pos(as.Pos()), kind+": "+why)
 			} else {
 				sc.Violation(key, c.P.Pos(as.Pos()), fmt.Sprintf("%s[%s] is stored without a lookup of the same key on every path: a repeated declaration is not detected (or a visited mark no longer stops a second visit)", name, types.ExprString(ix.Index)))
 			}
@@ -1289,4 +1301,58 @@ func RuleMC1(c *Ctx) {
 	if n == 0 {
 		sc.Undecided("sites", "-", "no function reaching a duplicate-rejecting inserter")
 	}
+}
+
+// h1CallersLookedUp: the key of the insert is a parameter of the function and every static
+// caller reaches the call only after a lookup (not found) of its argument in the same map -
+// made there or, through a fact summary, by a helper the caller consulted first.
+func (c *Ctx) h1CallersLookedUp(pk *pkgT, fd *ast.FuncDecl, ix *ast.IndexExpr) (string, bool) {
+	info := pk.TypesInfo
+	id, ok := ast.Unparen(ix.Index).(*ast.Ident)
+	if !ok {
+		return "", false
+	}
+	obj := info.ObjectOf(id)
+	pidx := paramIndexOf(info, fd, obj)
+	if pidx < 0 || assignedAnywhere(info, fd.Body, obj) {
+		return "", false
+	}
+	msel, ok := ast.Unparen(ix.X).(*ast.SelectorExpr)
+	if !ok {
+		return "", false
+	}
+	self, _ := info.Defs[fd.Name].(*types.Func)
+	if self == nil || c.usedAsValue(self) {
+		return "", false
+	}
+	sites := c.callSitesOf(self)
+	if len(sites) == 0 {
+		return "", false
+	}
+	for _, cs := range sites {
+		if pidx >= len(cs.Call.Args) {
+			return "", false
+		}
+		cinfo := cs.Pk.TypesInfo
+		cf := c.CFG(cs.Pk, cs.Body)
+		arg := cs.Call.Args[pidx]
+		gen := func(fa cfgx.Fact) bool {
+			if fa.Truth {
+				return false
+			}
+			m, k, found := mapLookupOf(cinfo, cf, fa.Expr)
+			if !found {
+				return false
+			}
+			sm, ok := ast.Unparen(m).(*ast.SelectorExpr)
+			if !ok || cinfo.ObjectOf(sm.Sel) != info.ObjectOf(msel.Sel) {
+				return false
+			}
+			return cfgx.SameExpr(cinfo, k, arg) || cf.SameResolved(k, arg)
+		}
+		if !cf.MustAt(cs.Call, gen, nil, nil) {
+			return "", false
+		}
+	}
+	return fmt.Sprintf("the key is a parameter and all %d callers reach the call only after a lookup (not found) of it", len(sites)), true
 }
